@@ -45,6 +45,7 @@ fn fixed_cases() -> Vec<PriceCase> {
     let l = |m: i64, s: u32, c: usize| VE::Amt(Lit { m, scale: s, comm: Some(c), grouped: false });
     let cost = |d: i32, q: i64, x: usize, m: i64, s: u32, y: usize| {
         Entry::Txn(Txn {
+            effective: None,
             date: d,
             posts: vec![
                 Posting { account: 0, amount: Some(l(q, 0, x)), cost: Some(Exch::Rate(l(m, s, y))), lot: None, balance: None },
